@@ -153,20 +153,26 @@ func LoadNormalised(opts LoadOpts, dry func(*Prog)) (*Prog, error) {
 	info := &NormInfo{}
 	const maxRounds = 4
 	canonTry := 0 // 0: both rewrites, 1: library forms only, 2: methods only
-	for round := 0; round <= maxRounds; round++ {
+	// round 0 and the last round rewrite library forms (canon.go); the rounds between expand helpers
+	for round := 0; round <= maxRounds+1; round++ {
 		var res roundPlan
-		if round == 0 {
+		if round == 0 || round == maxRounds+1 {
 			if os.Getenv("MLB_NO_CANON") != "" {
 				continue
 			}
-			res = planCanon(p, canonTry != 2, canonTry != 1).roundPlan
+			if round == 0 {
+				res = planCanon(p, canonTry != 2, canonTry != 1).roundPlan
+			} else {
+				res = planCanon(p, true, false).roundPlan
+			}
 			if len(res.files) == 0 {
 				continue
 			}
 		} else {
 			res = planRound(p, round)
 			if len(res.files) == 0 {
-				break
+				round = maxRounds
+				continue
 			}
 		}
 		try := func(withRemovals bool) (*Prog, error) {
@@ -218,13 +224,19 @@ func LoadNormalised(opts LoadOpts, dry func(*Prog)) (*Prog, error) {
 					}
 					continue
 				}
+				if round < maxRounds {
+					round = maxRounds
+					continue
+				}
 				break
 			}
 		} else {
 			info.Removed = append(info.Removed, res.removed...)
 		}
 		info.Expanded = append(info.Expanded, res.expanded...)
-		info.Rounds = round
+		if round <= maxRounds {
+			info.Rounds = round
+		}
 		p = np
 	}
 	p.Norm = info
@@ -1801,13 +1813,23 @@ func (b *bodyBuilder) substitutable(i int, pv *types.Var) bool {
 		return false // adjusted receiver (&x / *x)
 	}
 	tv, ok := b.info.Types[arg]
-	if !ok || tv.Value != nil || tv.IsNil() || tv.Type == nil || !types.Identical(tv.Type, pv.Type()) {
+	if !ok || tv.Value != nil || tv.IsNil() || tv.Type == nil {
+		return false
+	}
+	if !types.Identical(tv.Type, pv.Type()) && !b.onlyForwardedAsInterface(pv, tv.Type) {
 		return false
 	}
 	simple := true
+	indexOK := b.usedOnceBeforeCalls(pv)
 	ast.Inspect(arg, func(n ast.Node) bool {
 		switch x := n.(type) {
 		case nil, *ast.Ident, *ast.SelectorExpr, *ast.ParenExpr, *ast.StarExpr:
+		case *ast.IndexExpr, *ast.BasicLit:
+			// an element read can stand for the parameter when the helper is one returned expression that uses
+			// the parameter once with no call completed before that use (the read happens in the same state)
+			if !indexOK {
+				simple = false
+			}
 		case *ast.UnaryExpr:
 			if x.Op != token.AND {
 				simple = false
@@ -1871,6 +1893,101 @@ func (b *bodyBuilder) substitutable(i int, pv *types.Var) bool {
 		}
 	}
 	return true
+}
+
+// onlyForwardedAsInterface: the parameter has an interface type the argument's type implements, and the helper does
+// nothing with it but pass it on as an argument of that same interface type: the argument converts there exactly as it
+// would have at the helper's call.
+func (b *bodyBuilder) onlyForwardedAsInterface(pv *types.Var, argT types.Type) bool {
+	if _, isIface := pv.Type().Underlying().(*types.Interface); !isIface || !types.AssignableTo(argT, pv.Type()) {
+		return false
+	}
+	if _, argIface := argT.Underlying().(*types.Interface); argIface {
+		return false
+	}
+	ok, n := true, 0
+	ast.Inspect(b.s.callee.Body, func(m ast.Node) bool {
+		id, isId := m.(*ast.Ident)
+		if !isId || b.info.Uses[id] != types.Object(pv) {
+			return true
+		}
+		n++
+		call, isCall := b.in.p.parents[id].(*ast.CallExpr)
+		if !isCall || call.Ellipsis.IsValid() {
+			ok = false
+			return true
+		}
+		sig, _ := b.info.TypeOf(call.Fun).(*types.Signature)
+		if sig == nil {
+			ok = false
+			return true
+		}
+		for j, a := range call.Args {
+			if a != ast.Expr(id) {
+				continue
+			}
+			var pt types.Type
+			switch {
+			case sig.Variadic() && j >= sig.Params().Len()-1:
+				pt = sig.Params().At(sig.Params().Len() - 1).Type().(*types.Slice).Elem()
+			case j < sig.Params().Len():
+				pt = sig.Params().At(j).Type()
+			}
+			if pt == nil || !types.Identical(pt, pv.Type()) {
+				ok = false
+			}
+			return true
+		}
+		ok = false
+		return true
+	})
+	return ok && n > 0
+}
+
+// usedOnceBeforeCalls: the helper is `return E`, E mentions the parameter exactly once, and no call of E is complete
+// before that mention (conversions aside).
+func (b *bodyBuilder) usedOnceBeforeCalls(pv *types.Var) bool {
+	f := b.s.callee
+	if len(f.Body.List) != 1 {
+		return false
+	}
+	rs, ok := f.Body.List[0].(*ast.ReturnStmt)
+	if !ok || len(rs.Results) != 1 {
+		return false
+	}
+	var use *ast.Ident
+	n := 0
+	ast.Inspect(rs.Results[0], func(m ast.Node) bool {
+		if id, ok := m.(*ast.Ident); ok && b.info.Uses[id] == types.Object(pv) {
+			use = id
+			n++
+		}
+		return true
+	})
+	if n != 1 {
+		return false
+	}
+	okc := true
+	ast.Inspect(rs.Results[0], func(m ast.Node) bool {
+		switch x := m.(type) {
+		case *ast.FuncLit:
+			if x.Pos() <= use.Pos() && use.End() <= x.End() {
+				okc = false
+			}
+			return false
+		case *ast.CallExpr:
+			if tv, has := b.info.Types[x.Fun]; has && tv.IsType() {
+				return true
+			} else if id, isId := x.Fun.(*ast.Ident); isId && has && tv.IsBuiltin() && (id.Name == "len" || id.Name == "cap") {
+				return true
+			}
+			if x.End() <= use.Pos() {
+				okc = false
+			}
+		}
+		return okc
+	})
+	return okc
 }
 
 // freeNamesAgree: every identifier of the helper body that refers to something
